@@ -11,6 +11,7 @@ import tymodel as T
 import ir2coq
 import progs
 import wholeprog as W
+import scopespec
 
 TYPING = {1: "initializer", 2: "call argument", 3: "constructor argument", 4: "super-constructor argument",
           5: "function result", 6: "conditional branch", 7: "assignment", 8: "type argument outside its bound",
@@ -170,6 +171,10 @@ def evaluate(items, prefix, per=6, strict_too=True):
     return broken
 
 
+SPEC_HDR = {"scoping_codes": "From Heph Require Import IR.CheckSpec IR.Properties_C05_spec.\n",
+            "typing_codes": "From Heph Require Import IR.CheckSpec IR.Properties_C01_spec.\n"}
+
+
 def certify(items, prefix, codes_name, codes, per=6):
     """kernel theorems  only_codes <codes> (check_program ...) = []  for the accepted programs"""
     good = [it for it in items if it.get("errs") is not None and "node" in it and not [e for e in it["errs"] if e[1] in codes]]
@@ -185,7 +190,13 @@ def certify(items, prefix, codes_name, codes, per=6):
             body.append(txt)
             body.append("Theorem p%d_accepted : only_codes %s (%s) = [].\nProof. vm_compute. reflexivity. Qed.\n"
                         % (j, codes_name, W.check_call(L.lang, j).replace("STRICT", "false").replace("INFER", "false")))
-        files.append(("%sc_%d" % (prefix, k // per), W.HDR + "".join(lang_defs.values()) + "\n".join(body)))
+            if codes_name == "scoping_codes":
+                body.append("Theorem p%d_tv_closed : TvClosed p%d.\nProof. exact (accepted_program_is_TvClosed _ _ _ _ _ _ _ _ _ p%d_accepted). Qed.\n" % (j, j, j))
+            else:
+                body.append("Theorem p%d_bounds : forall t, TypeOccurs t p%d -> BoundsRespected false L_%s (world_of (classes_of cn%d p%d) bclasses_%s bt_%s array_%s) "
+                            "(classes_of cn%d p%d) t /\\ DepProjOk (classes_of cn%d p%d) t.\nProof. exact (accepted_program_respects_bounds_everywhere _ _ _ _ _ _ _ _ _ p%d_accepted). Qed.\n"
+                            % (j, j, L.lang, j, j, L.lang, L.lang, L.lang, j, j, j, j, j))
+        files.append(("%sc_%d" % (prefix, k // per), W.HDR + SPEC_HDR[codes_name] + "".join(lang_defs.values()) + "\n".join(body)))
     res = C.run_case_files(files, timeout=1800)
     n = 0
     bad = []
@@ -207,12 +218,16 @@ def run(pid, codes, tier, seed, what):
     rows = progs.config_table()
     progs.emit_config(rows)
     proof_ok = C.proof_part(rep, "IR/Properties_%s.v" % pid, ["Generated/Builtins.vo", "IR/Check.vo"], ["IR", "Types", "Generated"])
+    # the declarative specifications of the self-contained sub-checkers (IR/CheckSpec.v) and their iff theorems
+    proof_ok = scopespec.spec_proof(rep, pid) and proof_ok
     plan = gen_plan(tier, seed, pid)
     t0 = time.time()
     items, fails = generate_all(plan, rows)
     t_gen = time.time() - t0
     broken = evaluate(items, pid.lower())
     ncert, cbad = certify(items, pid.lower(), "typing_codes" if pid == "C01" else "scoping_codes", codes)
+    if pid == "C05":
+        scopespec.run(rep, items, seed, tier)
     os.makedirs(os.path.join(C.REPLAYS, pid), exist_ok=True)
     nviol = 0
     hist = {}
@@ -286,7 +301,11 @@ def run(pid, codes, tier, seed, what):
     for it in items:
         lh[it["lang"]] = lh.get(it["lang"], 0) + 1
     rep.add(programs=len(items), disagreements_checked=nviol, programs_accepted_in_kernel=ncert,
-            evaluations=len(items), distinct_nontrivial=ncert, ast_nodes=nodes, unchecked_positions=unknown,
+            evaluations=len(items), distinct_nontrivial=ncert,
+            spec_certificates=dict(count=ncert, statement=(
+                "TvClosed p  (IR/CheckSpec.v, from accepted_program_is_TvClosed applied to the program's acceptance theorem)" if pid == "C05" else
+                "forall t, TypeOccurs t p -> BoundsRespected false L w cs t /\\ DepProjOk cs t  (IR/CheckSpec.v, from "
+                "accepted_program_respects_bounds_everywhere applied to the program's acceptance theorem)")), ast_nodes=nodes, unchecked_positions=unknown,
             errors_of_other_property=other_codes, error_histogram=hist, language_histogram=lh,
             generator_failed=len(fails), generation_s=round(t_gen, 1),
             rule="programs from the real generator for the 4 languages x 4 switch corners (none, all, two mixed); each is serialised "
